@@ -344,6 +344,8 @@ package ion
 //@ ensures[C06,C13] err == nil ==> vcIsInt64(result) || (vcIsBigInt(result) && vcAsBigInt(result) != nil)
 //@ ensures[C03,C07] old(b.code) == bitcodeNegInt && old(b.len) <= 8 && uint64(old(bsAvail(b))) >= old(b.len) &&
 //@    specBEValue(bsS(b).data, old(bsS(b).cur), old(b.len)) == 0 ==> err != nil
+//@ ensures[C03,C07] old(b.code) == bitcodeNegInt && old(b.len) < 1<<63 && uint64(old(bsAvail(b))) >= old(b.len) &&
+//@    (forall k int :: 0 <= k && uint64(k) < old(b.len) ==> old(bsByte(b, k)) == 0) ==> err != nil
 //@ ensures[C03] uint64(old(bsAvail(b))) >= old(b.len) && (old(b.len) < 8 || (old(b.len) == 8 && old(bsByte(b, 0))&0x80 == 0)) &&
 //@    (old(b.code) == bitcodeInt || specBEValue(bsS(b).data, old(bsS(b).cur), old(b.len)) != 0) ==> err == nil
 //@ safe[C06]
